@@ -86,6 +86,10 @@ namespace sim
 
 	void http_proxy::on_read_request(error_code const& ec, size_t bytes_transferred) try
 	{
+		// the connection this operation belonged to has been closed, and the
+		// next client may be using the sockets already
+		if (ec == asio::error::operation_aborted) return;
+
 		if (ec)
 		{
 			std::printf("http_proxy::on_read_request: (%d) %s\n"
@@ -263,11 +267,21 @@ namespace sim
 		memcpy(m_in_buffer, send_buffer.data(), send_buffer.size());
 		asio::async_write(m_client_connection, asio::buffer(
 			&m_in_buffer[0], send_buffer.size())
-			, std::bind(&http_proxy::close_connection, this));
+			, std::bind(&http_proxy::on_error_sent, this, _1));
+	}
+
+	void http_proxy::on_error_sent(boost::system::error_code const& ec)
+	{
+		if (ec == asio::error::operation_aborted) return;
+		close_connection();
 	}
 
 	void http_proxy::on_connected(boost::system::error_code const& ec)
 	{
+		// the connection this operation belonged to has been closed, and the
+		// next client may be using the sockets already
+		if (ec == asio::error::operation_aborted) return;
+
 		if (ec)
 		{
 			std::printf("http_proxy::on_connected() connection failed: %s\n", ec.message().c_str());
@@ -297,6 +311,10 @@ namespace sim
 	void http_proxy::on_server_write(error_code const& ec, size_t bytes_transferred)
 	{
 		m_writing_to_server = false;
+		// the connection this operation belonged to has been closed, and the
+		// next client may be using the sockets already
+		if (ec == asio::error::operation_aborted) return;
+
 		if (ec)
 		{
 			std::printf("http_proxy::on_server_write: (%d) %s\n"
@@ -317,6 +335,10 @@ namespace sim
 	void http_proxy::on_server_receive(boost::system::error_code const& ec
 		, std::size_t bytes_transferred)
 	{
+		// the connection this operation belonged to has been closed, and the
+		// next client may be using the sockets already
+		if (ec == asio::error::operation_aborted) return;
+
 		if (ec)
 		{
 			std::printf("http_proxy: error reading from server: (%d) %s\n"
@@ -332,6 +354,10 @@ namespace sim
 	void http_proxy::on_server_forward(error_code const& ec
 		, size_t)
 	{
+		// the connection this operation belonged to has been closed, and the
+		// next client may be using the sockets already
+		if (ec == asio::error::operation_aborted) return;
+
 		if (ec)
 		{
 			std::printf("http_proxy: error writing to client: (%d) %s\n"
@@ -357,6 +383,7 @@ namespace sim
 		m_num_server_out_bytes = 0;
 		m_num_in_bytes = 0;
 		m_resolving = false;
+		m_writing_to_server = false;
 		m_resolver.cancel();
 
 		error_code err;
